@@ -19,8 +19,10 @@ import (
 	"path/filepath"
 	"runtime"
 	"runtime/debug"
+	"runtime/pprof"
 	"strings"
 	"syscall"
+	"time"
 
 	"github.com/spikeekips/mitum/util"
 	"verifharness/vh"
@@ -395,7 +397,8 @@ func (h *runner) mark(rp replay) {
 }
 
 // largest length field the stream reader would honour with an allocation when fed b (reference scan, used only as a
-// memory guard for the harness itself; see notes/C29.md "allocation on hostile lengths")
+// guard for the harness itself: EnsureRead allocates a buffer of the still missing size for every Read call and
+// ReadLengthed allocates the announced length up front; see notes/C29.md "allocation on hostile lengths")
 func hostileAlloc(b []byte) uint64 {
 	if len(b) < 8 {
 		return 0
@@ -405,20 +408,39 @@ func hostileAlloc(b []byte) uint64 {
 		return 0
 	}
 	off := uint64(8)
+	var mx uint64
 	for i := uint64(0); i < cnt; i++ {
 		if off+8 > uint64(len(b)) {
-			return 0
+			return mx
 		}
 		l := be(b[off : off+8])
+		if l > 1<<31 {
+			return mx
+		}
+		if l > mx {
+			mx = l
+		}
 		if l > uint64(len(b))-off-8 {
-			if l > 1<<31 {
-				return 0
-			}
-			return l
+			return mx
 		}
 		off += 8 + l
 	}
-	return 0
+	return mx
+}
+
+// keeps the number of Read calls small when a large length field will be honoured (cost per Read = missing size)
+func tame(ck chunking, b []byte) chunking {
+	a := hostileAlloc(b)
+	if a <= 512 {
+		return ck
+	}
+	if ck.Unit != 0 && uint64(ck.Unit) < a/8 {
+		ck.Unit = int(a / 8)
+	}
+	if len(ck.Sizes) > 6 {
+		ck.Sizes = ck.Sizes[:6]
+	}
+	return ck
 }
 
 func be(b []byte) uint64 {
@@ -429,7 +451,7 @@ func be(b []byte) uint64 {
 	return x
 }
 
-const allocGuard = 32 << 20
+const allocGuard = 16 << 20
 
 func (h *runner) addBufCase(input []seg, o sliceObs) {
 	h.cases.Add(fmt.Sprintf("CBuf %s %s %s %s", coqSegs(input), vh.N(uint64(o.tag)), coqSegs(itemSegs(o.items)), vh.Hex(o.rest)),
@@ -509,17 +531,15 @@ func (h *runner) oracleList(m [][]byte, model bool, nTrunc int) {
 	}
 	// stream round trip under several chunkings
 	cks := []chunking{{Ending: 0}, {Ending: 1}, {Sizes: []int{1}, Ending: r.Intn(2)}, randChunking(r, len(in)), randChunking(r, len(in))}
-	if len(in) <= 20000 {
+	if len(in) <= 4000 {
 		cks = append(cks, chunking{Unit: 1, Ending: 0}, chunking{Unit: 1, Ending: 1})
 	}
 	for i, ck := range cks {
-		if ck.Unit == 1 && len(in) > 20000 {
-			ck.Unit = 4096
-		}
 		src := in
 		if i%2 == 1 {
 			src = w // stream ends exactly after the last item (io.EOF may come with the last bytes)
 		}
+		ck = tame(ck, src)
 		rp2 := rp
 		rp2.Kind, rp2.Chunking = "stream", &ck
 		so := readStream(src, ck)
@@ -558,14 +578,14 @@ func (h *runner) oracleList(m [][]byte, model bool, nTrunc int) {
 		if len(w) > 5000 && j%10 != 0 {
 			continue
 		}
-		ck := randChunking(r, c)
+		ck := tame(randChunking(r, c), p)
 		ck.Ending = r.Intn(3)
 		so := readStream(p, ck)
 		if so.tag != tagErr {
 			res.Fail("truncation-accepted-stream", fmt.Sprintf("prefix of %d/%d bytes of a written list of %d items, chunking=%+v: ReadLengthedSlice -> tag=%d items=%d %s", c, len(w), len(m), ck, so.tag, len(so.items), so.msg),
 				replay{Kind: "stream", Input: shortHex(p), Count: len(m), Chunking: &ck})
 		}
-		if model && len(w) <= 300 && (len(w) <= 60 || j%7 == 0) {
+		if model && len(w) <= 300 && (len(w) <= 40 || j%9 == 0) {
 			h.addBufCase([]seg{{p, 1}}, ob)
 			h.addStreamCase([]seg{{p, 1}}, ck, so)
 		}
@@ -596,7 +616,7 @@ func (h *runner) oracleMutated(in []byte, what string, model bool) {
 		res.Dist("stream_skipped_hostile_alloc")
 		return
 	}
-	ck := randChunking(r, len(in))
+	ck := tame(randChunking(r, len(in)), in)
 	ck.Ending = r.Intn(3)
 	h.mark(replay{Kind: "stream", Input: shortHex(in), Chunking: &ck, Note: what})
 	so := readStream(in, ck)
@@ -889,7 +909,7 @@ func (h *runner) frames(n int) {
 // any 8-byte window that decodes to a length between the guard and 2^31 (conservative memory guard for mutated frames)
 func hasHostileBody(in []byte) bool {
 	for i := 0; i+8 <= len(in); i++ {
-		if v := be(in[i : i+8]); v > allocGuard && v < 1<<32 {
+		if v := be(in[i : i+8]); v > 1<<16 && v < 1<<32 {
 			return true
 		}
 	}
@@ -969,8 +989,19 @@ func child(o *vh.Opts) {
 		}
 	}
 
+	if pf := os.Getenv("C29_PPROF"); pf != "" {
+		f, _ := os.Create(pf)
+		_ = pprof.StartCPUProfile(f)
+		defer pprof.StopCPUProfile()
+	}
+	t0 := time.Now()
+	lap := func(what string) {
+		fmt.Fprintf(os.Stderr, "c29: %s %.1fs (cases so far %d)\n", what, time.Since(t0).Seconds(), h.cases.Len())
+		t0 = time.Now()
+	}
+	lap("corpus")
 	// generated lists
-	nl := o.Pick(260, 6000)
+	nl := o.Pick(160, 6000)
 	nTrunc := 200
 	for i := 0; i < nl; i++ {
 		m := randList(h.r)
@@ -986,9 +1017,10 @@ func child(o *vh.Opts) {
 		}
 		for k := 0; k < nm; k++ {
 			in, what := h.mutate(w, m)
-			h.oracleMutated(in, what, k < 3)
+			h.oracleMutated(in, what, k < 2)
 		}
 	}
+	lap("generated lists")
 	// big lists around the limit and up to 40000 items
 	nb := o.Pick(6, 60)
 	for i := 0; i < nb; i++ {
@@ -1009,6 +1041,7 @@ func child(o *vh.Opts) {
 		}
 		h.oracleList(bigList(h.r, n), i < 6, 200)
 	}
+	lap("big lists")
 	// fully random big lists (oracle only)
 	for i := 0; i < o.Pick(2, 20); i++ {
 		n := h.r.Range(3000, 40000)
@@ -1024,8 +1057,11 @@ func child(o *vh.Opts) {
 			}
 		}
 	}
+	lap("random big lists")
 	h.ensureCases(o.Pick(300, 3000))
+	lap("ensure")
 	h.frames(o.Pick(60, 1200))
+	lap("frames")
 
 	var ms runtime.MemStats
 	runtime.ReadMemStats(&ms)
